@@ -18,6 +18,7 @@ func init() {
 			"R1": "filter-before-emit on every path where a hand state may exist and system mode is off",
 			"R2": "adapter passes and keeps a fresh JSON round-trip copy of the incoming table, and nothing else hands a table to an actor; the JSON copy is complete (every field reachable from Table round-trips)",
 			"R3": "observer runner has no write path to the engine",
+			"R5": "receiver discipline: no method of these types assigns to a field of a value receiver (the assignment would be lost) or copies a sync.* field through its receiver (observer runner, actor, engine adapter: the private copy the adapter keeps, the attached runner)",
 			"R4": "the actor package invokes only the player operations of the engine: no accessor hands an actor the engine's live table or hand state",
 		},
 		Assumptions: []string{"pokerface GameState.AsObserver removes deck, burned cards, hole cards and hand strength as documented"},
@@ -28,6 +29,7 @@ func init() {
 
 func checkC20(c *Ctx) {
 	p := c.P
+	checkReceiverDiscipline(c, "R5", func(n string) bool { return n == "observerRunner" || n == "actor" || n == "tableEngineAdapter" }, 12)
 	checkCloneCompleteness(c, "R2")
 	// R4: the actor package never reads the engine's own state: the only TableEngine methods it
 	// invokes are the player operations (everything an actor sees comes from its private copy)
